@@ -14,6 +14,7 @@ import BtcModel.Driver.Ledger
 import BtcModel.Driver.TxCreate
 import BtcModel.Driver.KeyPaths
 import BtcModel.Driver.Multisig
+import BtcModel.Driver.DbCrypt
 /-!
 `btcdriver [flag ...]` — line protocol: one operation per input line (space separated tokens),
 one result line per operation: `spec | impl [| extra]`, `bad-op` for an unknown or malformed
@@ -22,7 +23,7 @@ operation.  The flags name the deviations (`Btc.Dev`) that are switched on in `i
 open Btc Btc.Driver
 
 def dispatch (D : Dev) (toks : List String) : String :=
-  match (handleWire D toks <|> handleEnc D toks <|> handleTx D toks <|> handleSig D toks <|> handleKeys D toks <|> handleScript D toks <|> handleVerify D toks <|> handleMnemonic D toks <|> handleService D toks <|> handleAmount D toks <|> handleRedact D toks <|> handleBip38 D toks <|> handleLedger D toks <|> handleTxCreate D toks <|> handleKeyPaths D toks <|> handleMultisig D toks) with
+  match (handleWire D toks <|> handleEnc D toks <|> handleTx D toks <|> handleSig D toks <|> handleKeys D toks <|> handleScript D toks <|> handleVerify D toks <|> handleMnemonic D toks <|> handleService D toks <|> handleAmount D toks <|> handleRedact D toks <|> handleBip38 D toks <|> handleLedger D toks <|> handleTxCreate D toks <|> handleKeyPaths D toks <|> handleMultisig D toks <|> handleDbCrypt D toks) with
   | some r => r
   | none => "bad-op"
 
